@@ -56,13 +56,19 @@ extern "C" void h_c17b_exactly_once()
             job_t j; j.idx = next_job;
             id_of[next_job] = p->post(booster::function<void()>(j));
             posted[next_job] = true; next_job++;
-        } else if (op == 1) {                                 // cancel some posted job
-            unsigned k = nondet_u8(); ASSUME(k < VERIF_K);
-            if (posted[k] && !cancelled[k]) {
+        } else if (op == 1) {                                 // cancel(id) for ANY int id: a posted job's or not
+            int id = (int)nondet_u32();
+            int k = -1;
+            for (int i = 0; i < VERIF_K; i++) if (posted[i] && id_of[i] == id) k = i;
+            bool c = p->cancel(id);
+            if (k >= 0 && !cancelled[k]) {
                 unsigned before = g_ran[k];
-                bool c = p->cancel(id_of[k]);
                 if (c) { CHECKM(before == 0, "cancel succeeded for a job that had already run"); cancelled[k] = true; WITNESS("cancelled"); }
                 else CHECKM(before == 1, "cancel failed for a job that is still queued");
+            } else {
+                // the id names no job, or one cancelled before: nothing is queued under it
+                CHECKM(!c, "cancel reported success for an id under which no job is queued");
+                if (k < 0) WITNESS("cancel of an unknown id");
             }
         } else {                                              // a worker runs until it would block
             p->shut_down_ = false;
